@@ -13,6 +13,35 @@ def twin(name, **kw):
 
 PLAN = {}
 
+import universe as U
+
+
+def fam_harnesses(fam, tier, what, rows=None, only_borrows=False):
+    hs = []
+    for row in (rows or U.ROWS):
+        if tier == "quick" and not row["quick"]:
+            continue
+        if only_borrows and not row["borrows"]:
+            continue
+        for pre in U.residues(row, tier):
+            hs.append(H("inst::" + U.inst_name(fam, row["case"], pre),
+                        bound=f"{row['ty']}: all values (sequence/char bounds per cases.rs), start residue {pre} of unit {row['unit']}, unwind {row['unwind']}",
+                        what=what, role=f"{fam}/{row['case']}"))
+    return hs
+
+
+COMMON_OUTSIDE = [
+    "types outside the listed universe (bin/universe.py); longer sequences than the per-case bound (<= 3 elements, <= 2 chars)",
+    "big-endian and 32-bit targets",
+]
+
+PLAN["C01"] = dict(
+    quick=lambda seed: [dict(harnesses=fam_harnesses("c01", "quick", "serialize -> deserialize_full == original; bytes consumed == bytes written") + [twin("c01::c01_twin_reach")])],
+    thorough=lambda seed: [dict(harnesses=fam_harnesses("c01", "thorough", "serialize -> deserialize_full == original; bytes consumed == bytes written") + [twin("c01::c01_twin_reach")], timeout=1800)],
+    bounds={"sequence_len": "<= 3 (per case)", "string_chars": "<= 2, all code points", "start_residues": "quick {0,1,unit-1}; thorough 0..unit-1"},
+    outside=COMMON_OUTSIDE, stubs=["Sink<N>: WriteNoStd into [u8;N]", "Exact: ReadNoStd over a slice"], assumptions=[],
+)
+
 PLAN["C07"] = dict(
     quick=[dict(harnesses=[
         H("c07::c07_pad_formula", bound="all v: usize x all 64 power-of-two units", what="pad_align_to: multiple, < unit, minimal"),
